@@ -17,7 +17,7 @@ RULE = ("a case = a history of operations on a fresh OrdinalInstance plus a regr
         "non-trivial = the history uses >= 2 different entry points and some vote is added more than once")
 EXHAUSTIVE = {"quick": "all histories of <= 2 operations over the 73-operation universe on alternatives {1,2}",
               "thorough": "all histories of <= 2 operations over the 73-operation universe on alternatives {1,2}; all "
-                          "histories of 3 operations over a 31-operation sub-universe"}
+                          "histories of 3 operations over a 29-operation sub-universe"}
 TRUSTED = ["modelled (mirror): OrdinalInstance.append_order / append_order_array / append_order_list / append_vote_map "
            "/ infer_type / vote_map / full_profile / flatten_strict, basic.py statistics, sanity.orders; "
            "populate_* is replayed as append_vote_map of the vote map captured from the wrapped sampler "
